@@ -11,7 +11,7 @@ PID = "C08"
 MODES = {
     "rs": gitskin.RS_ARGS,
     "rs+numbers": gitskin.RS_ARGS + ["--line-numbers"],
-    "rs+side-by-side": gitskin.RS_ARGS + ["--side-by-side", "--width", "160"],
+    "rs+side-by-side": gitskin.rs_args(160) + ["--side-by-side"],
     "defaults": ["--no-gitconfig", "--width", "100"],
     "color-only": ["--no-gitconfig", "--color-only"],
     "diff-highlight": ["--no-gitconfig", "--diff-highlight", "--width", "100"],
